@@ -250,12 +250,52 @@ def h_signed(ctx, template, pos, cls, edit, nin=3, nout=3):
             ctx.check(ok, 'uncommitted edit keeps the signature valid', detail='%s under %s' % (edit, cls))
 
 
+def h_two_checksigs(ctx, pos, cls):
+    """scriptPubKey = <sig1> <P1> CHECKSIGVERIFY <P2> CHECKSIG, scriptSig = <sig2>: each signature signs the script code valid at
+    ITS opcode (sig1's own push removed for the first check only)"""
+    S = ctx.script
+    SE = ctx.scripteval
+    C = ctx.core
+    B = ctx.B
+    push = lambda d: RS.push_encode(ctx, d)
+    f = K.mk_tx_fields(ctx, dict(sig=[0] * 2, spk=[1] * 2, wit=None), pre='tx')
+    ht = _ht(ctx, cls)
+    keys = _keys(ctx, 2)
+    base = push(keys[0][0]) + B(b'\xad') + push(keys[1][0]) + B(b'\xac')
+
+    def digest(code):
+        r = SH.legacy_preimage(ctx, f, code, pos, ht)
+        return B(SH.ONE) if r[0] == 'one' else ctx.dsha256(r[1])
+    sig1 = keys[0][1](digest(base)) + ctx.bytes_of([ht])
+    spk = push(sig1) + base
+    sig2 = keys[1][1](digest(spk)) + ctx.bytes_of([ht])
+    ssig = push(sig2)
+    g = dict(f)
+    g['vin'] = [dict(i) for i in f['vin']]
+    g['vin'][pos]['scriptSig'] = ssig
+    tx = K.build_tx(ctx, g, False)
+    try:
+        SE.VerifyScript(S.CScript(ssig), S.CScript(spk), tx, pos, flags=set())
+        ok = True
+    except C.ValidationError:
+        ok = False
+    ctx.check(ok, 'signed input is accepted', detail='two signature checks in one script')
+    # a second signature made over the script code of the FIRST check must not verify
+    bad2 = keys[1][1](digest(base)) + ctx.bytes_of([ht])
+    try:
+        SE.VerifyScript(S.CScript(push(bad2)), S.CScript(spk), tx, pos, flags=set())
+        ok2 = True
+    except C.ValidationError:
+        ok2 = False
+    ctx.check(not ok2, 'committed edit invalidates the signature', detail='signature over the stale script code of the previous check')
+
+
 def h_single_nomatch(ctx, template, cls):
     """SIGHASH_SINGLE at an input index without a matching output: the historical digest 1 is what gets signed and verified"""
     h_signed(ctx, template, 2, cls, None, nin=3, nout=2)
 
 
-HARNESSES = {'signed': h_signed, 'single_nomatch': h_single_nomatch}
+HARNESSES = {'two_checksigs': h_two_checksigs, 'signed': h_signed, 'single_nomatch': h_single_nomatch}
 
 
 def instances(tier):
@@ -272,6 +312,9 @@ def instances(tier):
                     if tier == 'quick' and (ti * 7 + ci * 3 + pos + ei) % 6 != 0:
                         continue
                     out.append(dict(h='signed', p=dict(template=t, pos=pos, cls=cls, edit=e), max_seconds=900, keep_witnesses=1))
+    for pos in (0, 1):
+        for cls in ('all', 'none_acp', 'single'):
+            out.append(dict(h='two_checksigs', p=dict(pos=pos, cls=cls)))
     for t in ('p2pk', 'ms1of2', 'p2sh_p2pk'):
         for cls in ('single', 'single_acp'):
             out.append(dict(h='single_nomatch', p=dict(template=t, cls=cls)))
